@@ -691,6 +691,10 @@ def operand_for(rng, alt, labels, addr_hint=0):
             s = rng.choice(['+', '-'])
             lim = 1 << (alt['offset']['size'] - 1)
             body = body + Txt(sp() + s + sp(), [t_op('OAdd' if s == '+' else 'OSub')]) + x_num(rng, rng.choice([0, 1, 2 % lim, lim - 1]))
+            if rng.random() < 0.3:
+                # an offset of several terms: the sign in front of it belongs to its first term only ([sp - 2 + 1] is -1)
+                s2 = rng.choice(['+', '-'])
+                body = body + Txt(sp() + s2 + sp(), [t_op('OAdd' if s2 == '+' else 'OSub')]) + x_num(rng, rng.choice([1, 1, 2 % lim]))
         return decorate(Txt('[' + sp(), ['OLBr']) + body + Txt(sp() + ']', ['ORBr']), alt['dec'])
     if k in ('numeric', 'indirect_numeric', 'deferred_numeric'):
         size = alt['arg']['size']
@@ -860,6 +864,9 @@ def isa_case_term(case):
     from . import sysgen
     cfg = case['cfg']
     gb = (0, 2 ** cfg['addr_bits'] - 1)
+    for z in cfg.get('zones', []):
+        if z[0] == 'GLOBAL':
+            gb = (z[1], z[2])
     files = []
     for f in case['files']:
         items = []
@@ -957,6 +964,11 @@ def gen_macro_scenario(rng, prof=None, tier='quick'):
     # range-checked codes whose bounds include 0: a bound of exactly 0 is a bound like any other
     isa['sets']['nb1'] = [{'id': 'nbp', 'kind': 'numeric_bytecode', 'code': None, 'pos': 'suffix', 'code_size': 3, 'min': 0, 'max': 7}]
     isa['sets']['nb2'] = [{'id': 'nbn', 'kind': 'numeric_bytecode', 'code': None, 'pos': 'suffix', 'code_size': 4, 'min': -8, 'max': 0}]
+    # three variants, the last two of which both accept a plain number: which one a statement gets depends on the statement
+    # alone, never on which variants earlier statements of the same mnemonic used
+    isa['sets']['wide'] = [{'id': 'w16', 'kind': 'numeric', 'code': None, 'pos': 'suffix', 'arg': {'size': 16, 'align': True, 'endian': None}, 'valid': False},
+                           {'id': 'wind', 'kind': 'indirect_numeric', 'code': (3, 4), 'pos': 'suffix', 'arg': {'size': 16, 'align': True, 'endian': None}, 'valid': False}]
+    isa['instrs']['ld3'] = [variant(0x40, 8, sets_parser(['rr'])), variant(0x41, 8, sets_parser(['imm'])), variant(0x42, 8, sets_parser(['wide']))]
     isa['instrs']['add3b'] = [variant(0x1A, 5, sets_parser(['nb1']))]
     isa['instrs']['cmpq2'] = [variant(0xB, 4, sets_parser(['nb2']))]
     ph = ('ph', 'ARG', 0)
@@ -992,7 +1004,8 @@ def gen_macro_scenario(rng, prof=None, tier='quick'):
             return Txt(n, [t_lab(n)])
         return Txt(f'{n}+{b}', [t_lab(n), t_op('OAdd'), t_num(b)])
     kinds = ['dbl'] * 5 + ['mac1'] * 2 + ['mac2'] * 2 + ['swp', 'mac3', 'mac3', 'add3', 'add3', 'cmpq', 'cmpq', 'mac4', 'mac4', 'mac5', 'mac5',
-                                                          'ldx', 'tst', 'psh2', 'psh2', 'mac6', 'mac6', 'jmpz2', 'jmpz2', 'swp2', 'add3b', 'add3b', 'add3b', 'cmpq2', 'cmpq2', 'cmpq2']
+                                                          'ldx', 'tst', 'psh2', 'psh2', 'mac6', 'mac6', 'jmpz2', 'jmpz2', 'swp2', 'add3b', 'add3b', 'add3b', 'cmpq2', 'cmpq2', 'cmpq2',
+                                                          'ld3', 'ld3']
     # a program is rejected as a whole by one unacceptable statement: at most one statement kind that may be unacceptable
     risky_left = 1 if rng.random() < 0.5 else 0
     for _ in range(rng.randint(2, 7)):
@@ -1040,6 +1053,15 @@ def gen_macro_scenario(rng, prof=None, tier='quick'):
         elif k == 'jmpz2':
             stmts.append(['asm', 'jmpz2', rng.choice([[['b', [t_lab('b')]], ['5', [t_num(5)]]], [['a', [t_lab('a')]]],
                                                       [['b', [t_lab('b')]], ['7', [t_num(7)]]]])])
+        elif k == 'ld3':
+            for form in rng.choice([['ind', 'num'], ['num', 'ind', 'num'], ['reg', 'ind', 'num', 'num'], ['num']]):
+                if form == 'ind':
+                    stmts.append(['asm', 'ld3', [['[5]', ['OLBr', t_num(5), 'ORBr']]]])
+                elif form == 'num':
+                    v = rng.choice([5, 7, 9])
+                    stmts.append(['asm', 'ld3', [[str(v), [t_num(v)]]]])
+                else:
+                    stmts.append(['asm', 'ld3', [['a', [t_lab('a')]]]])
         elif k == 'swp2':
             rg = rng.choice(['a', 'b'])
             stmts.append(['asm', 'swp2', [[rg, [t_lab(rg)]]]])
@@ -1110,9 +1132,19 @@ def gen_constraint_scenario(rng, prof=None, tier='quick'):
     isa['instrs']['lop'] = [variant(0xE1, 8, sets_parser(['relmin']))]
     isa['instrs']['brb'] = [variant(0xE2, 8, sets_parser(['relboth']))]
     isa['instrs']['tst'] = [variant(0, 8, None)]
+    # a numeric operand whose value must be a valid address (inside GLOBAL), however the value is written
+    isa['sets']['vnum'] = [{'id': 'vn1', 'kind': 'numeric', 'code': None, 'pos': 'suffix', 'arg': {'size': bits, 'align': True, 'endian': None},
+                            'valid': True}]
+    isa['instrs']['lea'] = [variant(0xE3, 8, sets_parser(['vnum']))]
     cfg = dict(addr_bits=bits, endian=e, origin=base, page=1, terminator=0, embedded=False, zones=[], consts=[], data=[], syms=[], cli=[])
     top = (1 << bits) - 1
     mask = (1 << ssz) - 1
+    gs, ge = 0, top
+    if rng.random() < 0.4:
+        # GLOBAL narrowed around the program
+        gs, ge = max(0, base - 0x300), min(top, base + 0x1fff)
+        isa['zones'] = [['GLOBAL', gs, ge]]
+        cfg['zones'] = [['GLOBAL', gs, ge]]
     stmts = []
     risky_left = 1 if rng.random() < 0.5 else 0
     at = base
@@ -1120,12 +1152,26 @@ def gen_constraint_scenario(rng, prof=None, tier='quick'):
         if i > 0:
             at += rng.choice([0x10, 0x24, 0x31, 1 << ssz])
             stmts.append(['org', num(at), None])
-        k = rng.choice(['jps', 'jps', 'skp', 'lop', 'brb', 'tst'])
-        if k == 'jps':
+        k = rng.choice(['jps', 'jps', 'skp', 'lop', 'brb', 'tst', 'lea'])
+        if k == 'jps' and rng.random() < 0.3 and i > 0:
+            # the jump is the last thing in its page: the page is that of the instruction's own address
+            at = (at | mask) - rng.choice([0, 1])
+            stmts[-1] = ['org', num(at), None]
+        if k == 'lea':
+            good = [gs, ge, base, (gs + ge) // 2]
+            bad = [x for x in (gs - 1, ge + 1, 0 if gs > 0 else -1, top if ge < top else -1) if 0 <= x <= top and not gs <= x <= ge]
+            v = rng.choice(good + (bad if risky_left else []))
+            risky_left = 0 if v in bad else risky_left
+            if rng.random() < 0.6:
+                stmts.append(['asm', 'lea', [[f'${v:x}', [t_num(v)]]]])
+            else:
+                stmts.append(['asm', 'lea', [[f'${v:x}+0', [t_num(v), t_op('OAdd'), t_num(0)]]]])
+        elif k == 'jps':
             good = [at, (at & ~mask) | rng.randrange(1 << ssz), at & ~mask, at | mask]
-            bad = [at ^ (1 << ssz), at ^ (1 << (bits - 1))]
+            bad = [at ^ (1 << ssz), at ^ (1 << (bits - 1)), (at | mask) + 1, (at | mask) + 3]
             if 2 * ssz < bits:
                 bad += [at ^ (1 << (2 * ssz)), at ^ (1 << (2 * ssz)), at ^ (3 << (2 * ssz)) & top]
+            bad = [b for b in bad if 0 <= b <= top]
             v = rng.choice(good + (bad if risky_left else []))
             risky_left = 0 if v in bad else risky_left
             stmts.append(['asm', 'jps', [[f'${v:x}', [t_num(v)]]]])
